@@ -130,7 +130,7 @@ def specs(tier, rng, explicit=False):
 
 def batch_of(cases):
     return {'cases': [{'G': c['G'], 'cyclic': c['cyclic'], 'inputs': [{'w': i['w'], 'obs': [{k: o[k] for k in ('cfg', 'out', 'tree', 'must')} for o in i['obs']],
-                                                                      'exp': [{k: o[k] for k in ('cfg', 'out', 'tree', 'collrun', 'collok', 'coll')} for o in i['exp']]} for i in c['inputs']]} for c in cases]}
+                                                                      'exp': [{k: o[k] for k in ('cfg', 'out', 'tree', 'collrun', 'collok', 'coll', 'one', 'isamb') if k in o} for o in i['exp']]} for i in c['inputs']]} for c in cases]}
 
 
 def judge(pid, cases, ev, rep, tmp, name, module='TraceTrees'):
